@@ -54,13 +54,22 @@ package phttp
 //@ requires req != nil
 //@ modifies req.Body
 
-// Debug/answer logging helpers: not verified, assumed to leave the gun and the request alone (answLogging re-attaches the body copy).
+// Debug/answer logging helpers leave the gun and the request alone (answLogging re-attaches the body copy) and cannot fault
+// on any response: a response that came out of net/http carries its request, and that request its URL.
 //@ func (b *BaseGun) verboseLogging
-//@ trusted
+//@ props C19 C09
+//@ nilsafe
+//@ requires res != nil
+//@ env [net-http-attaches-the-request-to-its-response] res.Request != nil && res.Request.URL != nil
+//@ env [a-gun-has-its-logger] b.Log != nil
 //@ modifies nothing
 //@ func (b *BaseGun) answLogging
-//@ trusted
-//@ modifies req.Body
+//@ props C19 C09
+//@ nilsafe
+//@ requires req != nil && res != nil
+//@ env [a-gun-with-answer-logging-has-its-answer-logger] b.AnswLog != nil
+//@ ensures [a-response-keeps-having-a-body] iff(old(res.Body) == nil, res.Body == nil)
+//@ modifies req.Body, res.Body
 
 // First `depth` path elements of the URL (the whole path if it has fewer). No fault for any path.
 //@ func autotag
